@@ -75,9 +75,9 @@ def _check_call(rec, family, case, gname, fn, p, k, wr, rs):
         import io, contextlib
         try:
             with contextlib.redirect_stdout(io.StringIO()):
-                Wd = fn(*args, debug=True, **kw)
+                Wd, od = fn(*args, debug=True, return_ordering=True, **kw)
             rec.count("keyword:debug=True")
-            if not (isinstance(Wd, np.ndarray) and np.array_equal(Wd, W)):
+            if not (isinstance(Wd, np.ndarray) and np.array_equal(Wd, W) and np.array_equal(od, order)):
                 rec.violation("C11:dag_avg_deg-debug-changes-result", family, sub, "dag_avg_deg(debug=True) returns a different graph for the same seed")
         except Exception as e:
             rec.exception_violation("C11:dag_avg_deg-debug-exception", family, sub, "dag_avg_deg(debug=True) raised", e)
